@@ -224,3 +224,18 @@ pub fn u512_key_layout() {
     assert!(buf[32..64] == be);
     kani::cover!(true);
 }
+
+// C14: the 256-byte logs bloom (B2048ED = FixedBytesED<256>), the last fixed-width leaf codec of the records
+#[kani::proof]
+#[kani::unwind(260)]
+pub fn b2048ed_roundtrip() {
+    let bytes: [u8; 256] = kani::any();
+    let v: B2048ED = bytes.into();
+    let mut buf = vec![0xAAu8];
+    v.encode(&mut buf);
+    assert!(buf.len() == 257 && buf[1..257] == bytes);
+    buf.push(0x55);
+    let (d, off) = B2048ED::decode(&buf, 1).unwrap();
+    assert!(d == v && off == 257);
+    kani::cover!(true);
+}
